@@ -254,6 +254,9 @@ custom_fail(IMB_JOB *job)
 
 int hx_docsis_shape = -1; /* DOCSIS+CRC32: 0 cipher without CRC, 1 CRC without cipher, 2 both, -1 random */
 int hx_len_long; /* when set: lengths 520..3520 */
+int hx_full_tags;
+uint64_t hx_key_salt; /* non-zero: keys are drawn from this salt instead of the job's seed */
+int hx_data_patterns; /* set by the reference and cross-variant drivers: structured messages / keys for some seeds */
 long hx_force_len = -1; /* when >= 0 every generated message length is this value (rounded to the mode's granularity) */
 
 static uint32_t
@@ -369,6 +372,8 @@ spec_fill(const cdesc *c, const hdesc *h, int dir, int order_override, hx_rng *r
                 }
                 if (h->ha == IMB_AUTH_AES_CCM)
                         sp->taglen = 4 + 2 * hx_below(r, 7);
+                if (hx_full_tags) /* (drv_keydiff: the whole MAC value is handed out, so all of it is public) */
+                        sp->taglen = (h->ha == IMB_AUTH_ZUC256_EIA3_BITLEN || h->ha == IMB_AUTH_AES_CCM) ? 16 : h->full;
                 if (h->ht == HT_AEAD) {
                         switch (h->ha) {
                         case IMB_AUTH_AES_GMAC:
@@ -593,6 +598,27 @@ hx_job_build(IMB_MGR *mgr, const hx_spec *sp, int id, hx_job *j)
         j->src_size = total;
         j->src = ga_alloc(total, 1, pl, "src", id);
         hx_fill(&r, j->src, total);
+        /* structured data (reference / cross-variant drivers only): carries in the wide accumulators of the MAC
+         * kernels need extreme limb values that random bytes never produce */
+        const unsigned dpat = hx_data_patterns ? (unsigned) ((sp->seed >> 41) % 24) : 99;
+        const unsigned kpat = hx_data_patterns ? (unsigned) ((sp->seed >> 47) % 6) : 99;
+        const int framed = sp->cm == IMB_CIPHER_PON_AES_CNTR || sp->ha == IMB_AUTH_DOCSIS_CRC32 || sp->ha == IMB_AUTH_PON_CRC_BIP;
+        if (!framed) {
+                if (dpat == 0 || (sp->ha == IMB_AUTH_POLY1305 && kpat <= 1))
+                        memset(j->src, 0xff, total);
+                else if (dpat == 1)
+                        memset(j->src, 0x00, total);
+                else if (dpat == 2 && total >= 16) {
+                        /* blocks with a run of low one-bits ending at a limb boundary (26 / 44 / 52 / 64 / 88 bits ...) */
+                        static const unsigned nb[] = { 26, 44, 45, 52, 64, 65, 88, 89, 104, 127 };
+                        memset(j->src, 0, total);
+                        for (size_t b = 0; b + 16 <= total; b += 16 * (1 + hx_below(&r, 3))) {
+                                unsigned n = nb[hx_below(&r, 10)];
+                                for (unsigned i = 0; i < n; i++)
+                                        j->src[b + i / 8] |= (uint8_t) (1u << (i % 8));
+                        }
+                }
+        }
         if (sp->cm == IMB_CIPHER_PON_AES_CNTR && sp->ha == IMB_AUTH_PON_CRC_BIP && total >= (size_t) sp->hoff + 8) {
                 /* XGEM header: 14 most significant bits = PLI */
                 j->src[sp->hoff] = (uint8_t) (sp->pli >> 6);
@@ -656,6 +682,20 @@ hx_job_build(IMB_MGR *mgr, const hx_spec *sp, int id, hx_job *j)
         }
         hx_fill(&r, j->rawkey, sizeof(j->rawkey));
         hx_fill(&r, j->rawakey, sizeof(j->rawakey));
+        if (hx_key_salt) {
+                /* key-dependence differential (drv_keydiff): other keys, everything else unchanged */
+                hx_rng ks;
+                hx_seed(&ks, hx_key_salt ^ sp->seed);
+                hx_fill(&ks, j->rawkey, sizeof(j->rawkey));
+                hx_fill(&ks, j->rawakey, sizeof(j->rawakey));
+        }
+        if (sp->ha == IMB_AUTH_POLY1305 && kpat <= 2) {
+                /* Poly1305 key classes: r = 1 (the accumulator is the plain sum of the blocks) for kpat 0 and 2,
+                 * r = the largest clamped value for kpat 1; s stays random */
+                memset(j->rawakey, kpat == 1 ? 0xff : 0x00, 16);
+                if (kpat != 1)
+                        j->rawakey[0] = 1;
+        }
 
         /* --- descriptor --- */
         t->cipher_mode = sp->cm;
